@@ -59,6 +59,7 @@ fn main() {
     .pbt(docs::DocSerialize)
     .pbt(mixes::DocMixes)
     .pbt(mixes::BigAlphabets)
+    .pbt(mixes::SkewedContexts)
     .pbt(components::Components)
     .pbt(bits::BitVectors(bits::Impl::Rrr))
     .pbt(bits::BitVectors(bits::Impl::CfRrr))
